@@ -4,7 +4,9 @@ import (
 	"bytes"
 	"fmt"
 	"reflect"
+	"unicode/utf8"
 
+	"github.com/cosmos/cosmos-sdk/codec"
 	sdk "github.com/cosmos/cosmos-sdk/types"
 	didtypes "github.com/medibloc/panacea-core/v2/x/did/types"
 )
@@ -78,3 +80,83 @@ func (e *Exec) checkFieldCoverage(m sdk.Msg) {
 }
 
 var _ = fmt.Sprint
+
+var faithAmino = codec.NewLegacyAmino()
+
+// signBytesFaithful (C14): the legacy amino-JSON bytes a message contributes to the sign document must determine the
+// message - decoding them into a value of the same type gives the message back. This is a witness of injectivity that
+// needs no second message: an encoding that drops, shortens, digests or re-interprets part of a field fails it.
+// Returns "" when faithful, "undecodable: ..." when the bytes cannot be decoded at all (not judged), or a description
+// of the difference.
+func signBytesFaithful(m sdk.Msg) (verdict string) {
+	defer func() {
+		if r := recover(); r != nil {
+			verdict = fmt.Sprintf("undecodable: panic %v", r)
+		}
+	}()
+	lm, ok := m.(interface{ GetSignBytes() []byte })
+	if !ok {
+		return ""
+	}
+	pm, ok := m.(interface{ Marshal() ([]byte, error) })
+	if !ok {
+		return ""
+	}
+	if !allStringsUTF8(reflect.ValueOf(m), 0) {
+		// a JSON document cannot carry strings that are not valid UTF-8 (every encoder replaces the offending bytes):
+		// a limit of the legacy sign mode itself, shared by every SDK message, not judged here
+		return "undecodable: message carries strings that are not valid UTF-8"
+	}
+	raw := lm.GetSignBytes()
+	rv := reflect.ValueOf(m)
+	if rv.Kind() != reflect.Ptr || rv.Elem().Kind() != reflect.Struct {
+		return ""
+	}
+	back := reflect.New(rv.Elem().Type())
+	if err := faithAmino.UnmarshalJSON(raw, back.Interface()); err != nil {
+		return "undecodable: " + err.Error()
+	}
+	want, err1 := pm.Marshal()
+	got, err2 := back.Interface().(interface{ Marshal() ([]byte, error) }).Marshal()
+	if err1 != nil || err2 != nil {
+		return "undecodable: marshal"
+	}
+	if !bytes.Equal(want, got) {
+		return fmt.Sprintf("decoding the sign bytes gives another message: sign bytes %s", trunc(string(raw), 400))
+	}
+	return ""
+}
+
+func allStringsUTF8(v reflect.Value, depth int) bool {
+	if depth > 12 {
+		return true
+	}
+	switch v.Kind() {
+	case reflect.String:
+		return utf8.ValidString(v.String())
+	case reflect.Ptr, reflect.Interface:
+		if v.IsNil() {
+			return true
+		}
+		return allStringsUTF8(v.Elem(), depth+1)
+	case reflect.Struct:
+		for i := 0; i < v.NumField(); i++ {
+			if v.Type().Field(i).PkgPath != "" {
+				continue
+			}
+			if !allStringsUTF8(v.Field(i), depth+1) {
+				return false
+			}
+		}
+	case reflect.Slice, reflect.Array:
+		if v.Type().Elem().Kind() == reflect.Uint8 {
+			return true
+		}
+		for i := 0; i < v.Len(); i++ {
+			if !allStringsUTF8(v.Index(i), depth+1) {
+				return false
+			}
+		}
+	}
+	return true
+}
